@@ -6,7 +6,8 @@ import NfpmModel.Ar
 
     block (512 bytes)  name[100] mode[8] uid[8] gid[8] size[12] mtime[12] chksum[8] typeflag[1] linkname[100]
                        magic[6] version[2] ("ustar " " \0" GNU, "ustar\0" "00" USTAR) uname[32] gname[32] devmajor[8] devminor[8] zeros[167]
-    strings            copied, NUL-filled;  numbers: leading-zero octal, one digit less than the field, then NUL
+    strings            copied, NUL-filled;  numbers: leading-zero octal, one digit less than the field, then NUL;
+                       GNU only: a number too large for that is written big-endian binary with the top bit set
     chksum             sum of all 512 bytes with the chksum field read as 8 blanks: six octal digits, NUL, blank
     member             header block, body, zero padding to the next 512-byte boundary
     archive            members, then two zero blocks
@@ -41,6 +42,20 @@ def Flavor.version : Flavor → Bytes
   | .gnu => [32, 0]
   | .ustar => b!"00"
 
+/-- digits of `n` in base 256, exactly `k` of them, most significant first -/
+def beFixed : Nat → Nat → Bytes
+  | 0, _ => []
+  | k + 1, n => beFixed k (n / 256) ++ [(n % 256).toUInt8]
+
+/-- formatter.formatNumeric, binary branch: the value big-endian over the whole field, the top bit of the first byte set -/
+def binField (w n : Nat) : Bytes := ((n / 256 ^ (w - 1) % 256).toUInt8 ||| 128) :: beFixed (w - 1) n
+
+/-- formatter.formatNumeric as templateV7Plus is given it: GNU headers fall back to the binary form when the value
+    does not fit the octal digits (nfpm reaches this with Go's directory mode bit 2^31 on tree directories);
+    USTAR and PAX headers only ever use octal -/
+def numField (fl : Flavor) (w n : Nat) : Bytes :=
+  if fl = .gnu ∧ 8 ^ (w - 1) ≤ n then binField w n else octField w n
+
 structure Hdr where
   flavor : Flavor := .gnu
   name : Bytes
@@ -62,7 +77,8 @@ def devField (h : Hdr) : Bytes := if h.dev then octField 8 0 else zeros 8
 
 /-- the sixteen fields of a header block, the checksum field given -/
 def fields (h : Hdr) (chk : Bytes) : List Bytes :=
-  [ strField 100 h.name, octField 8 h.mode, octField 8 h.uid, octField 8 h.gid, octField 12 h.size, octField 12 h.mtime,
+  [ strField 100 h.name, numField h.flavor 8 h.mode, numField h.flavor 8 h.uid, numField h.flavor 8 h.gid,
+    numField h.flavor 12 h.size, numField h.flavor 12 h.mtime,
     chk, [h.typeflag], strField 100 h.linkname, h.flavor.magic, h.flavor.version, strField 32 h.uname, strField 32 h.gname,
     devField h, devField h, zeros 167 ]
 
@@ -103,6 +119,17 @@ def readOct (f : Bytes) : Option Nat :=
   let d := f.takeWhile (fun c => c != 0 && c != 32)
   if d = [] || !d.all isOctDigit then none else some (octVal d)
 
+def beVal (s : Bytes) : Nat := s.foldl (fun a c => a * 256 + c.toNat) 0
+
+/-- parser.parseNumeric: binary when the top bit of the first byte is set (negative values, bit 0x40, are refused
+    here: nothing nfpm writes is negative), octal otherwise -/
+def readNum (f : Bytes) : Option Nat :=
+  match f with
+  | c :: rest =>
+    if c &&& 128 ≠ 0 then (if c &&& 64 ≠ 0 then none else some (beVal ((c &&& 127) :: rest)))
+    else readOct f
+  | [] => none
+
 def slice (b : Bytes) (off len : Nat) : Bytes := (b.drop off).take len
 
 /-- parse one 512-byte header block, verifying magic and checksum -/
@@ -111,8 +138,8 @@ def readHeader (blk : Bytes) : Option Hdr :=
   else if slice blk 257 6 ≠ Flavor.gnu.magic ∧ slice blk 257 6 ≠ Flavor.ustar.magic then none
   else
     let blank := blk.take 148 ++ List.replicate 8 32 ++ blk.drop 156
-    match readOct (slice blk 148 8), readOct (slice blk 100 8), readOct (slice blk 108 8), readOct (slice blk 116 8),
-          readOct (slice blk 124 12), readOct (slice blk 136 12) with
+    match readOct (slice blk 148 8), readNum (slice blk 100 8), readNum (slice blk 108 8), readNum (slice blk 116 8),
+          readNum (slice blk 124 12), readNum (slice blk 136 12) with
     | some chk, some mode, some uid, some gid, some size, some mtime =>
       if chk ≠ byteSum blank then none
       else some { flavor := if slice blk 257 6 = Flavor.gnu.magic then .gnu else .ustar,
